@@ -146,6 +146,7 @@ def fast_sir(ctx, drv):
         G, lab = sims.build_graph(c)
         idx = gen.index_of(G)
         log = {}
+        edge_calls = []     # per-edge path: (node, neighbour | None, value returned, RNG calls made for it)
         calls = []          # Markov fast path: (node, #susceptible neighbours, #recipients, duration, RNG calls made for this node)
         orig = sim.fast_nonMarkov_SIR
 
@@ -153,10 +154,14 @@ def fast_sir(ctx, drv):
                     rec_time_args=(), trans_and_rec_time_args=(), **kw):
             if trans_and_rec_time_fxn is None:
                 def joint(node, sus, *a):
+                    mark = len(tr.trace)
                     d = rec_time_fxn(node, *rec_time_args)
+                    edge_calls.append((node, None, d, list(tr.trace[mark:])))
                     td = {}
                     for v in sus:
+                        mark = len(tr.trace)
                         td[v] = trans_time_fxn(node, v, *trans_time_args)
+                        edge_calls.append((node, v, td[v], list(tr.trace[mark:])))
                     log[idx[node]] = ([[idx[v], ers(x)] for v, x in td.items()], ers(d))
                     return td, d
                 return orig(G_, trans_and_rec_time_fxn=joint, **kw)
@@ -171,6 +176,12 @@ def fast_sir(ctx, drv):
 
         tr = rngmod.TapeRandom(rng=ctx.rng, idx=idx)
         rep = dict(entry="fast_SIR", case=strip(c))
+        if _ % 3 == 2:
+            # hidden state across calls: the same graph object has been through fast_SIR with other weights / another
+            # wiring before (restored in place); done before the logging wrapper is installed
+            allsims.prewarm(dict(c, prewarm=False), G, lab, True, None)
+            rep["prewarmed"] = True
+            ctx.count("fast_SIR:prewarmed-same-object")
         sim.fast_nonMarkov_SIR = wrapper
         try:
             res = allsims.call_sim(c, G, lab, tr, True)
@@ -192,6 +203,24 @@ def fast_sir(ctx, drv):
         joint = [list(log.get(u, ([], "inf"))) for u in range(c["n"])]
         markov_path = c.get("ew") is None and F(c["tau"]) * F(c["gamma"]) != 0
         ctx.count("fast_SIR:%s" % ("markov-path" if markov_path else "per-edge-path"))
+        # per-edge path: every delay / duration is one draw from Exp(tau * w_uv) resp. Exp(gamma * w_u) with the weights
+        # the graph has NOW (no draw and an infinite value when the rate is 0)
+        if not markov_path:
+            tau_, gam_ = F(c["tau"]), F(c["gamma"])
+            for (u, v, val, seg) in edge_calls:
+                if v is None:
+                    w_ = F(float(G.nodes[u]["r"])) if c.get("nw") is not None else F(1)
+                    rate, what = gam_ * w_, "infectious period of node %d" % idx[u]
+                else:
+                    w_ = F(float(G.adj[u][v]["w"])) if c.get("ew") is not None else F(1)
+                    rate, what = tau_ * w_, "transmission delay %d -> %d" % (idx[u], idx[v])
+                want = [["e", float(rate)]] if rate > 0 else []
+                got = [[x[0], float(x[1])] for x in seg]
+                if got != want or (rate == 0 and val != float("inf")):
+                    ctx.violation("fast_SIR (per-edge path): %s drawn as %s, the chain's rate is %s" % (what, seg, rate),
+                                  dict(rep, rng_calls=seg, rate=str(rate), tape=tr.log))
+                    break
+            ctx.count("fast_SIR:per-edge-draws-checked", len(edge_calls))
         # Markov fast path (`_trans_and_rec_time_Markovian_const_trans_`): the draws made for each newly infected node
         # must be the chain's: duration ~ Exp(gamma * w_u), #recipients ~ Binomial(#sus, 1-exp(-tau*duration)),
         # recipients = uniform sample, each delay from Exp(tau) folded into [0, duration)   (laws: Props/C01b, C01c)
